@@ -37,13 +37,11 @@ theorem isReply_finish (o : Out) : isReply (finish o) = true := by
 theorem handleRequest_reply_wellformed (m : Mode) (hs : Dongle.Hashes) (j : Json) :
     M.Returns (fun r => isReply r = true) (handleRequest m hs j) := by
   unfold handleRequest
-  iterate 6 (all_goals (try dsimp only); all_goals (repeat' split))
+  dsimp only
+  repeat' split
   all_goals first
     | exact M.returns_pure (isReply_errReply _)
-    | exact M.returns_pure (isReply_finish _)
     | exact M.returns_bind_pure _ _ isReply_finish
-    | exact M.returns_throw _
-    | skip
 
 /-- `handleLine` never raises: a line always gets a reply written. -/
 theorem line_always_replies (m : Mode) (hs : Dongle.Hashes) (p : Parsed) (w : World) :
